@@ -167,7 +167,7 @@ func runAnalysisProp(prop string, r *Rng, n int, tier string) {
 			hardenSchema(r, &s)
 		}
 		if (prop == "C05" || prop == "C06") && engine == "mysql" && r.Chance(60) {
-			s.Tables[0].Cols = append(s.Tables[0].Cols, PCol{"active", r.Pick([]string{"tinyint(1)", "boolean", "bool"}), r.Chance(50), false})
+			s.Tables[0].Cols = append(s.Tables[0].Cols, PCol{"active", r.Pick([]string{"tinyint(1)", "boolean", "bool", "bit(1)", "bit", "bit(8)"}), r.Chance(50), false})
 		}
 		mustModel, prefix := "", ""
 		risky := i%8 == 0
